@@ -258,7 +258,7 @@ class Report:
         return status
 
 
-def triage(rep, native, evaluate_native, sig_of, max_replays_per_sig=2, natrun=None):
+def triage(rep, native, evaluate_native, sig_of, max_replays_per_sig=2, natrun=None, known_without_confirmation=False):
     """group findings by signature, match against the known-findings file, replay natively.
     evaluate_native(finding, native_obs) -> list of failing messages (empty = not reproduced)."""
     known = load_known()
@@ -281,6 +281,12 @@ def triage(rep, native, evaluate_native, sig_of, max_replays_per_sig=2, natrun=N
                 confirmed = (f, bad, obs)
                 break
         if confirmed is None:
+            if k is not None and known_without_confirmation:
+                # timing-dependent replays (threads): a listed finding that did not reproduce in this run's attempts
+                # stays a listed finding; it is recorded, and nothing unlisted is ever accepted without reproduction
+                rep.known_hit[k['what']] = rep.known_hit.get(k['what'], 0) + len(fs)
+                rep.notes.append({'known_finding_not_reconfirmed_natively_this_run': sig})
+                continue
             rep.unconfirmed.append({'sig': sig, 'msg': fs[0]['msg'], 'scen': fs[0]['scen']})
             continue
         if k is not None:
